@@ -412,6 +412,12 @@ def random_world(rnd):
     if on(0.25):
         w["shortwrite_stdout"] = rnd.choice([1, 7, 100])
         dims.append("shortwrite_stdout")
+    if on(0.2):
+        w["eintr_write_obj"] = rnd.randint(1, 2)
+        dims.append("eintr_write_obj")
+    if on(0.2):
+        w["eintr_write_stdout"] = rnd.randint(1, 6)
+        dims.append("eintr_write_stdout")
     return w, dims
 
 
